@@ -116,8 +116,11 @@ def main():
         probes += [["quantify", spec], ["unprefixed", spec], ["expr", spec]]
     for text in ("m s", "m N", "h a", "m in.", "k g", "m m", "d a", "c d", "P a", "m Pa", "G y", "m s⁻¹", "kg m s⁻²", "m K", "n mi.", "f t", "T R"):
         probes += [["parse", text], ["qparse", text]]
-    fresh = impl("exprhist_worker.py", {"probes": probes, "disturb": False})["results"]
-    after = impl("exprhist_worker.py", {"probes": probes, "disturb": True})["results"]
+    late = [["dam", "time"], ["ms", "speed"], ["mK", "length"], ["Gs", "mass"], ["kat", "area"]]
+    for text, _d in late:
+        probes += [["parse", text], ["qparse", text], ["parse", text + "²"], ["parse", "m " + text]]
+    fresh = impl("exprhist_worker.py", {"probes": probes, "disturb": False, "late": late})["results"]
+    after = impl("exprhist_worker.py", {"probes": probes, "disturb": True, "late": late})["results"]
     for p_, a, b in zip(probes, fresh, after):
         c.count(["expression-history", p_], nontrivial=True)
         if "err" in a and "err" in b: continue
